@@ -14,7 +14,7 @@ def seeds_table():
   for d in sorted(glob.glob(os.path.join(HERE, "seeded", "*"))):
     m = json.load(open(os.path.join(d, "meta.json")))
     ev = m.get("evaluation", {})
-    det = "; ".join(ev.get("violations_reported", [])[:2]) if m.get("detected") else ("obsolete at HEAD (see meta.json); detected before" if m.get("detected_before_obsolete") else "NOT detected")
+    det = "; ".join(v[:70] for v in ev.get("violations_reported", [])[:2]) if m.get("detected") else ("obsolete at HEAD (see meta.json); detected before" if m.get("detected_before_obsolete") else "NOT detected")
     rows.append(f"| {os.path.basename(d)} | {m['property']} | {m['summary'][:170].replace('|', '/')} | {m['needs_to_manifest'][:170].replace('|', '/')} | {det[:200].replace('|', '/')} |")
   return "\n".join(rows)
 
